@@ -106,7 +106,12 @@ func zoneRule(z ZoneSpec) string {
 type mon struct {
 	c    *Case
 	viol []vh.Violation
+	// skipped: checks not made because a wall clock that the helper has to construct on the way (00:00:00 of the
+	// instant's own day, now's clock a week earlier, ...) does not exist in the zone on that day
+	skipped []string
 }
+
+func (m *mon) skip(what string) { m.skipped = append(m.skipped, what) }
 
 func (m *mon) hit(fn, class, format string, a ...interface{}) {
 	if len(m.viol) >= 6 {
@@ -195,7 +200,13 @@ func (m *mon) checkInst(t time.Time, loc *time.Location, localIsZone bool, w, kw
 			}
 		}
 		nm := get(iNextMoment)
-		if !nm.After(t) {
+		if tm := wallOf(today+1, int(h), int(mi), int(s), 0, loc); !fx && !tm.After(t) {
+			// tomorrow's h:mi:s lies in a gap that package time resolves to an instant which is not after now (zones whose
+			// DST starts at local midnight, asked on the eve for a time in the skipped hour: America/Havana 2099-03-07
+			// 23:56:40, 00:12:32 -> 2099-03-07 23:12:32): under the monitor's convention "h:mi:s on day D = time.Date(D, ...)"
+			// neither today's nor tomorrow's occurrence is in the future; recorded as an observation (docs/C19-NOTES.md)
+			m.skip("GetNextMoment:tomorrows-moment-resolved-into-the-past")
+		} else if !nm.After(t) {
 			m.hit("GetNextMoment", "not-in-the-future", "now=%s %02d:%02d:%02d got %s", fmtT(t), h, mi, s, fmtT(nm))
 		} else if !nm.Equal(want) {
 			m.hit("GetNextMoment", "not-the-earliest-future-occurrence", "now=%s %02d:%02d:%02d got %s want %s", fmtT(t), h, mi, s, fmtT(nm), fmtT(want))
@@ -213,8 +224,12 @@ func (m *mon) checkInst(t time.Time, loc *time.Location, localIsZone bool, w, kw
 	// week window: contains its anchor, starts on the Monday midnight of the anchor's week
 	ws, we := out[iWindowWeek].P[0].In(loc), out[iWindowWeek].P[1].In(loc)
 	if !has(monday, 0, 0, 0) {
+	} else if !has(today, 0, 0, 0) {
+		m.skip("NewPeriodWindowWeek:no-midnight-today")
 	} else if dayOf(ws) != monday || !clockIs(ws, 0, 0, 0, 0) {
 		m.hit("NewPeriodWindowWeek", "start-not-monday-midnight", "t=%s window=[%s, %s)", fmtT(t), fmtT(ws), fmtT(we))
+	} else if !has(monday+7, 0, 0, 0) {
+		m.skip("NewPeriodWindowWeek:no-midnight-next-monday")
 	} else if ws.After(t) || !we.After(t) {
 		m.hit("NewPeriodWindowWeek", "window-does-not-contain-anchor", "t=%s window=[%s, %s)", fmtT(t), fmtT(ws), fmtT(we))
 	}
@@ -249,6 +264,15 @@ func (m *mon) checkWeek(t time.Time, loc *time.Location, today, monday, w, kw in
 	fx := m.c.Zone.Fixed
 	has := func(n int64, h, mi, s int) bool { return wallExists(fx, n, h, mi, s, loc) }
 	wantDay := monday + pmod(w+6, 7) // the requested weekday inside the Monday-based week that contains t
+	// The week helpers go through GetStartOfDay(t): when 00:00:00 does not exist on t's own civil day (DST starting at local
+	// midnight: America/Sao_Paulo 2017-10-15, America/Havana 2024-03-10, Asia/Kathmandu 1986-01-01, Pacific/Apia 2010-09-26)
+	// package time resolves it to 23:00 of the previous day or 00:15 / 01:00 of the same day and every week helper inherits that
+	// clock (and, in zones west of Greenwich, the previous day). The property defines no start of day there; recorded
+	// as an observation (docs/C19-NOTES.md), not checked.
+	if !has(today, 0, 0, 0) {
+		m.skip("week-helpers:no-midnight-today")
+		return
+	}
 	if has(wantDay, 0, 0, 0) && (dayOf(sow) != wantDay || !clockIs(sow, 0, 0, 0, 0) || int64(sow.Weekday()) != w) {
 		m.hit("GetStartOfWeek", "wrong-day-or-clock", "t=%s weekday=%d got %s want day %v 00:00:00", fmtT(t), w, fmtT(sow), fmtDay(wantDay))
 	}
@@ -257,6 +281,22 @@ func (m *mon) checkWeek(t time.Time, loc *time.Location, today, monday, w, kw in
 	}
 	latest := today - pmod(refWeekday(today)-w, 7) // latest day <= today falling on weekday w
 	want := latest + 7*kw
+	{
+		// GetRelativeStartOfWeek steps back with now.AddDate(0,0,-7) when now's weekday (Sunday = 7) is before the requested one:
+		// that builds now's wall clock a week earlier and then the 00:00:00 of that day; and it builds 00:00:00 of [latest]
+		nw, wd := refWeekday(today), w
+		if nw == 0 {
+			nw = 7
+		}
+		if wd == 0 {
+			wd = 7
+		}
+		h0, m0, s0 := t.Clock()
+		if (nw < wd && (!has(today-7, h0, m0, s0) || !has(today-7, 0, 0, 0))) || !has(latest, 0, 0, 0) {
+			m.skip("relative-week-helpers:intermediate-wall-clock-missing")
+			return
+		}
+	}
 	if has(want, 0, 0, 0) && (dayOf(rsw) != want || !clockIs(rsw, 0, 0, 0, 0)) {
 		m.hit("GetRelativeStartOfWeek", "wrong-day-or-clock", "now=%s weekday=%d offsetWeeks=%d got %s want %v 00:00:00", fmtT(t), w, kw, fmtT(rsw), fmtDay(want))
 	}
@@ -318,7 +358,10 @@ func (m *mon) checkPair(t1, t2 time.Time, sameZone bool, out, swapped, diag1 []R
 		m.hit("IsSameDay", "inconsistent-with-day-boundaries", "t1=%s t2=%s got %v", fmtT(t1), fmtT(t2), out[pSameDay].B)
 	}
 	m1, m2 := d1-pmod(refWeekday(d1)+6, 7), d2-pmod(refWeekday(d2)+6, 7)
-	if out[pSameWeek].B != (m1 == m2) {
+	fx := m.c.Zone.Fixed
+	if !wallExists(fx, d1, 0, 0, 0, t1.Location()) || !wallExists(fx, d2, 0, 0, 0, t2.Location()) {
+		m.skip("IsSameWeek:no-midnight-on-one-of-the-days") // see checkWeek
+	} else if out[pSameWeek].B != (m1 == m2) {
 		m.hit("IsSameWeek", "inconsistent-with-week-boundaries", "t1=%s t2=%s got %v", fmtT(t1), fmtT(t2), out[pSameWeek].B)
 	}
 	y1, mo1, _ := refCivil(d1)
@@ -429,5 +472,6 @@ func monitor(c *Case) []vh.Violation {
 	case "sweep":
 		return c.sweepViol
 	}
+	c.skips = m.skipped
 	return m.viol
 }
